@@ -39,14 +39,50 @@ func positionComparisons(info *types.Info, body ast.Node) []*ast.BinaryExpr {
 		}
 		return sel.X, true
 	}
+	// the same for the byte index of an error or a location (package jerr): <x>.Index with <x>.File
+	isErrField := func(e ast.Expr, field string) (recv ast.Expr, ok bool) {
+		sel, isSel := ast.Unparen(e).(*ast.SelectorExpr)
+		if !isSel || sel.Sel.Name != field {
+			return nil, false
+		}
+		t := info.TypeOf(sel.X)
+		if t == nil {
+			return nil, false
+		}
+		if p, isP := t.(*types.Pointer); isP {
+			t = p.Elem()
+		}
+		named, isN := t.(*types.Named)
+		if !isN || named.Obj().Pkg() == nil || named.Obj().Pkg().Name() != "jerr" || (named.Obj().Name() != "JApiError" && named.Obj().Name() != "Location") {
+			return nil, false
+		}
+		return sel.X, true
+	}
+	isPos := func(e ast.Expr) (ast.Expr, bool) {
+		if r, ok := isCoordsCall(e, "Begin"); ok {
+			return r, true
+		}
+		return isErrField(e, "Index")
+	}
+	isFileOf := func(e ast.Expr) (ast.Expr, bool) {
+		if r, ok := isCoordsCall(e, "File"); ok {
+			return r, true
+		}
+		return isErrField(e, "File")
+	}
 	var out []*ast.BinaryExpr
 	inspectWithStack(body, func(n ast.Node, stack []ast.Node) bool {
 		be, ok := n.(*ast.BinaryExpr)
-		if !ok || (be.Op != token.EQL && be.Op != token.NEQ) {
+		if !ok {
 			return true
 		}
-		ra, okA := isCoordsCall(be.X, "Begin")
-		rb, okB := isCoordsCall(be.Y, "Begin")
+		switch be.Op {
+		case token.EQL, token.NEQ, token.LSS, token.GTR, token.LEQ, token.GEQ:
+		default:
+			return true
+		}
+		ra, okA := isPos(be.X)
+		rb, okB := isPos(be.Y)
 		if !okA || !okB || types.ExprString(ra) == types.ExprString(rb) {
 			return true
 		}
@@ -68,8 +104,8 @@ func positionComparisons(info *types.Info, body ast.Node) []*ast.BinaryExpr {
 		files := false
 		ast.Inspect(root, func(m ast.Node) bool {
 			if fb, ok := m.(*ast.BinaryExpr); ok && (fb.Op == token.EQL || fb.Op == token.NEQ) {
-				fa, ok1 := isCoordsCall(fb.X, "File")
-				fc, ok2 := isCoordsCall(fb.Y, "File")
+				fa, ok1 := isFileOf(fb.X)
+				fc, ok2 := isFileOf(fb.Y)
 				if ok1 && ok2 {
 					a, b := types.ExprString(fa), types.ExprString(fc)
 					if (a == types.ExprString(ra) && b == types.ExprString(rb)) || (a == types.ExprString(rb) && b == types.ExprString(ra)) {
